@@ -649,3 +649,15 @@ package larking
 //@   modifies F$path.variables, E$P_variable
 //@   ensures [sorted C02] SortedVars(p.variables)
 //@   ensures [non-nil] result != nil
+
+// ---------------------------------------------------------------------------
+// Error path: no status value and no request may make the server panic while
+// producing the error response (C05 "no status value makes the server fail to
+// produce a response", C09).
+//@ func (codecHTTPBody).Marshal serves C05 C09
+//@ func (codecHTTPBody).MarshalAppend serves C05 C09
+//@ func (codecHTTPBody).Unmarshal serves C09
+
+//@ func (*Mux).encError serves C05 C09 partial panic ghost
+//@   requires m != nil && w != nil && r != nil
+//@   witness verifWitnessEncError
